@@ -909,7 +909,12 @@ class CallMixin:
         # postconditions stated over the callee's ghost locals (ensures_env == "exit") cannot be used by a caller;
         # `naming` clauses (the result of a deterministic function named by uninterpreted functions of its
         # arguments) are assumed at call sites only and reported as such
-        ens = [] if con.get("ensures_env") == "exit" else list(con.get("ensures", []))
+        if con.get("ensures_env") == "exit":
+            # only the clauses the contract marks as caller-visible (they mention parameters and old() only)
+            vis = set(con.get("caller_ensures") or [])
+            ens = [e for e in con.get("ensures", []) if isinstance(e, tuple) and e[0] in vis]
+        else:
+            ens = list(con.get("ensures", []))
         for e in ens + list(con.get("naming", [])):
             name, src = e if isinstance(e, tuple) else (None, e)
             st.assume(self.formula(src, st, pcx, env, pol=-1))
